@@ -112,7 +112,7 @@ def step (s : St) (line : String) : St × String :=
       | _, _ => (s, "bad-op")
     | none => (s, "bad-op")
   | ["rewind"] => itStep s Iter.rewind (fun it => some it.rewind)
-  | ["next"] => itStep s Iter.next BIter.next
+  | ["next"] => itStep s Iter.next (fun it => some it.next)
   | ["seek", k] =>
     match fromHex k with
     | some k => itStep s (fun it => it.seek k) (fun it => some (it.seek k))
